@@ -405,7 +405,8 @@ class Out:
 
 
 class Generator:
-    def __init__(self, unit_path, exclude=()):
+    def __init__(self, unit_path, exclude=(), reach=False):
+        self.reach = reach            # vacuity guard: emit `fn f__reach(..) requires <same> { assert(false) }` twins only
         self.unit_path = unit_path
         self.exclude = set(exclude)   # functions Verus cannot take in their current shape: emitted as contract only
         self.unit = os.path.splitext(os.path.basename(unit_path))[0]
@@ -521,6 +522,9 @@ class Generator:
         if fn.qual in self.exclude or fn.opts.get('as', '') in self.exclude:
             fn.mode = 'external_body'
             fn.excluded = True
+        if self.reach:
+            fn.reach_twin = fn.mode == 'verify' and bool(fn.requires)
+            fn.mode = 'external_body'
         src = self.source(fn.src)
         loc = src.find_fn(fn.owner, fn.name, fn.opts.get('trait'))
         self.record_item(src, 'fn', fn.qual, loc['start'], loc['body_close'] + 1)
@@ -545,7 +549,7 @@ class Generator:
             sig = fn.sig + ' '
         body_line0 = src.text.count('\n', 0, body_off) + 1
         variants = [(None, fn.opts.get('as', fn.name))]
-        for kid in (fn.known if fn.mode != 'external_body' else []):
+        for kid in (fn.known if (fn.mode != 'external_body' and not self.reach) else []):
             variants.append((kid, fn.opts.get('as', fn.name) + '__kf_' + kid))
         for kid, emit_name in variants:
             self._emit_fn_variant(fn, src, sig, body, body_line0, kid, emit_name, loc)
@@ -592,6 +596,16 @@ class Generator:
             out.emit('    { unimplemented!() }')
             rec['end_line'] = out.lineno()
             self.fns.append(rec)
+            if self.reach and getattr(fn, 'reach_twin', False) and not kid:
+                # the same preconditions must be satisfiable: `assert(false)` under them has to FAIL
+                a0 = out.lineno() + 1
+                sig3 = re.sub(r'\bfn\s+' + re.escape(emit_name) + r'\b', 'fn ' + emit_name + '__reach', sig2, 1)
+                out.emit('    ' + ' '.join(sig3.split()))
+                out.emit('        requires')
+                for c in req:
+                    out.emit('            ' + c.text + ',')
+                out.emit('    { proof { assert(false); } vstd::pervasive::unreached() }')
+                self.fns.append(dict(rec, emit_name=emit_name + '__reach', reach=True, start_line=a0, end_line=out.lineno(), clauses=[]))
             return
         # ---- body ----
         edits = erule_edits(body, self.rules_used)
